@@ -114,6 +114,18 @@ def second(a, b):
     return b + 0 * a
 
 
+def local_import_fn(s, k):
+    """Calls a helper imported INSIDE the body; this module has another function of the same name."""
+    from mc.lib_fns2 import ma1
+
+    return ma1(s, k) + 0.5
+
+
+def module_helper_fn(s, k):
+    """Calls this module's own ma1 - next to local_import_fn, which means the other one."""
+    return ma1(s, k) * 2.0
+
+
 def weighted3(a, b, c):
     return a + 2 * b + 4 * c
 
